@@ -125,6 +125,10 @@ def gen_namespace(rng, nsname, thorough, deps, want_blocks=True, main=True, gobj
             members.append(m)
         if style in ('split', 'union'):
             D({'k': 'typedef_struct_fwd', 'name': P + r, 'tag': tag, 'union': is_union}, f_typedefs)
+            if rng.random() < 0.25:
+                # a second typedef of the same tag (the GObject / GInitiallyUnowned pattern); the two
+                # typedefs keep their relative order, only the body moves relative to them
+                D({'k': 'typedef_struct_fwd', 'name': P + r + 'Twin', 'tag': tag, 'union': is_union}, f_typedefs)
             D({'k': 'struct_def', 'tag': tag, 'members': members, 'union': is_union}, f_structs, len(members) + 1)
         elif style == 'opaque':
             D({'k': 'typedef_struct_fwd', 'name': P + r, 'tag': tag}, f_typedefs)
@@ -144,6 +148,12 @@ def gen_namespace(rng, nsname, thorough, deps, want_blocks=True, main=True, gobj
             if rng.random() < 0.2:
                 tl += ['', 'Deprecated: %s: Use something else' % rng.choice(since)]
             block(tl, f_typedefs)
+
+    if rng.random() < 0.3:
+        # typedef struct _PHandle *PHandle; with the body (or none) elsewhere
+        D({'k': 'typedef_alias', 'name': P + 'Handle', 'type': ['ptr', ['struct', '_' + P + 'Handle']]}, f_typedefs)
+        if rng.random() < 0.6:
+            D({'k': 'struct_def', 'tag': '_' + P + 'Handle', 'members': [{'name': 'fd', 'type': ['basic', 'int']}]}, f_structs, 2)
 
     # ---- enums, flags, callbacks, aliases, constants ---------------------------------
     for e in enums:
@@ -393,7 +403,7 @@ def gen_namespace(rng, nsname, thorough, deps, want_blocks=True, main=True, gobj
 
 def gen_job(rng, thorough):
     """Main namespace plus 0-3 dependencies in a chain and/or diamond (Main->B->A, Main->A)."""
-    shape = rng.choice(['none', 'one', 'chain', 'diamond', 'diamond', 'fan'])
+    shape = rng.choice(['none', 'one', 'chain', 'diamond', 'diamond', 'fan', 'join'])
     a = b = c = None
     deps = []
     if shape != 'none':
@@ -410,6 +420,12 @@ def gen_job(rng, thorough):
         b = gen_namespace(rng, 'Dpb', False, [a], want_blocks=False, main=False)
         c = gen_namespace(rng, 'Dpc', False, [a], want_blocks=False, main=False)
         deps = [c, b, a]
+    elif shape == 'join':
+        # a dependency with two includes of its own: the order in which the transformer meets
+        # A and B then depends on the iteration order of C's include *set*
+        b = gen_namespace(rng, 'Dpb', False, [], want_blocks=False, main=False)
+        c = gen_namespace(rng, 'Dpc', False, [a, b], want_blocks=False, main=False)
+        deps = [c] if rng.random() < 0.5 else [c, b, a]
     gobject = rng.random() < 0.45
     main = gen_namespace(rng, rng.choice(['Vfa', 'Qx', 'Mylib']), thorough, deps, gobject=gobject)
     main['shape'] = shape
